@@ -260,13 +260,9 @@ static void verif_check_subtree(VerifCheck *c, Subtree t) {
   if (d->first_leaf.symbol != ts_subtree_leaf_symbol(children[0])) verif_fail(c, t, "first_leaf.symbol", d->first_leaf.symbol, ts_subtree_leaf_symbol(children[0]));
   if (d->first_leaf.parse_state != ts_subtree_leaf_parse_state(children[0])) verif_fail(c, t, "first_leaf.parse_state", d->first_leaf.parse_state, ts_subtree_leaf_parse_state(children[0]));
 
-  uint32_t rd = 0;
-  if (d->child_count >= 2 && !d->visible && !d->named && ts_subtree_symbol(children[0]) == d->symbol) {
-    uint32_t a = ts_subtree_repeat_depth(children[0]);
-    uint32_t b = ts_subtree_repeat_depth(children[d->child_count - 1]);
-    rd = (a > b ? a : b) + 1;
-  }
-  if (d->repeat_depth != rd) verif_fail(c, t, "repeat_depth", d->repeat_depth, rd);
+  // repeat_depth is deliberately not compared: balancing compresses the children of a node after the node itself,
+  // which leaves the parent's cached depth larger than what its children now give. The value only steers later
+  // balancing and is not observable through the API.
 }
 
 int ts_verif_check_tree(const TSTree *tree, char *err, size_t errlen) {
